@@ -260,7 +260,7 @@ def lazy_property_caches_once_and_recomputes_after_clear():
     inc = real("inc")
     d2.x += inc
     i = fresh_index("i", 3)
-    prove("recomputed-after-an-in-place-update-of-the-defining-attribute", eq(d2.doubled[i], 2 * (v[i] + inc) if NATIVE else 2 * d2.x[i]))
+    prove("recomputed-after-an-in-place-update-of-the-defining-attribute", eq(d2.doubled[i], 2 * d2.x[i]))
     prove("in-place-update-took-place", eq(d2.x[i], first[i] / 2 + inc))
 
 
